@@ -738,3 +738,32 @@ func TestShutdownMix(t *testing.T) {
 
 var _ = cid.Undef
 var _ = sort.Strings
+
+// neverReady is a consensus component that never reports ready.
+type neverReady struct{ *fakes.Consensus }
+
+func (n *neverReady) Ready(context.Context) <-chan struct{} { return make(chan struct{}) }
+
+// Regression: a peer whose consensus did not become ready within
+// ReadyTimeout shuts itself down; that Shutdown was called from the very
+// goroutine it waits for and never returned (fixed in /repo).
+func TestRegressShutdownAfterReadyTimeout(t *testing.T) {
+	old := ipfscluster.ReadyTimeout
+	ipfscluster.ReadyTimeout = 300 * time.Millisecond
+	defer func() { ipfscluster.ReadyTimeout = old }()
+	shared := fakes.NewSharedState()
+	f := fakes.NewClusterNoWait(fakes.ClusterOpts{Key: gen.PeerKeys[6], Shared: shared, Consensus: &neverReady{fakes.NewConsensus(shared, gen.Peers[6])}})
+	select {
+	case <-f.C.Done():
+	case <-time.After(20 * time.Second):
+		t.Fatalf("a peer that could not become ready within ReadyTimeout did not finish shutting itself down within 20 s")
+	}
+	done := make(chan struct{})
+	go func() { f.C.Shutdown(ctx); close(done) }()
+	select {
+	case <-done:
+	case <-time.After(20 * time.Second):
+		t.Fatalf("Shutdown() on that peer does not return")
+	}
+	f.Host.Close()
+}
